@@ -11,7 +11,7 @@ MANIFEST = dict(
 MODULES = ["Gozod.Proofs.C11", "Gozod.Proofs.C11Reads"]
 THEOREMS = ["Gozod.C11.c11_equiv_partial", "Gozod.C11.conv", "Gozod.C11.equivJ", "Gozod.C11.c11_roundtrip",
             "Gozod.C11.c11_strict_rejects", "Gozod.C11.c11_strict_silent", "Gozod.C11.c11_strict_full_false",
-            "Gozod.C11.witness_integer_rejects_numbers", "Gozod.C11.witness_nullable_union",
+            "Gozod.C11.witness_integer_rejects_numbers", "Gozod.C11.witness_nullable_union", "Gozod.C11.witness_nullable_intersection",
             "Gozod.C11.witness_sibling_keywords_dropped", "Gozod.C11.witness_keywords_without_type",
             "Gozod.C11.witness_format_siblings_dropped", "Gozod.C11.witness_tuple_items_all_required",
             "Gozod.C11.witness_optional_property_accepts_null", "Gozod.C11.witness_required_on_record_path",
